@@ -30,6 +30,16 @@ var repoDir = "/repo"
 
 var replayTemplates = []*replayTemplate{
 	{
+		name: "req_recv_after_superseding_send.go.tmpl",
+		match: func(o *Obligation) bool {
+			return o.Kind == "post" && o.Func == "(*protocol/req.context).cancel" && strings.Contains(o.Note, "receiveWait")
+		},
+		run: func(g *Gen, o *Obligation, model map[string]string) (bool, string) {
+			// fixed history: Recv pending for request 1, Send of request 2, Recv at once
+			return runReplay("protocol/req", "req_recv_after_superseding_send.go.tmpl", map[string]string{}, "TestZZReplayReqRecvAfterSupersedingSend")
+		},
+	},
+	{
 		name: "ws_address_race.go.tmpl",
 		match: func(o *Obligation) bool {
 			return o.Kind == "guard.immutable" && o.Func == "(*transport/ws.listener).Address"
